@@ -6,6 +6,7 @@ package main
 import (
 	"crypto/sha256"
 	"encoding/json"
+	"encoding/xml"
 	"fmt"
 	"hash/fnv"
 	"os"
@@ -14,6 +15,7 @@ import (
 	"sort"
 	"strconv"
 	"strings"
+	"unicode/utf16"
 
 	"github.com/pdfcpu/pdfcpu/pkg/api"
 	"github.com/pdfcpu/pdfcpu/pkg/cli"
@@ -90,8 +92,12 @@ func (s step35) key() string {
 }
 
 type case35 struct {
-	Base  string   `json:"base"`
-	Steps []step35 `json:"steps"`
+	Base  string          `json:"base"`
+	Info  bool            `json:"info"`
+	XMP   bool            `json:"xmp"`
+	KwInf bool            `json:"kwinfo"` // the keywords are (also) in the Info dictionary
+	Init  json.RawMessage `json:"init"`
+	Steps []step35        `json:"steps"`
 }
 
 // view is what the real listing functions return, normalised to sorted lines per family.
@@ -224,6 +230,8 @@ func attBytes(id string) []byte {
 		return []byte{}
 	case "text":
 		return []byte("hello\nworld\n% not a comment\nendstream\nendobj\n")
+	case "orig":
+		return []byte("original attachment \x00\x01\xfe bytes\r\nline 2")
 	}
 	h.Die("unknown attachment data id %q", id)
 	return nil
@@ -400,7 +408,7 @@ func (r *runner35) safeApply(s step35, in, out string, e *entry35) (err error, p
 
 func (r *runner35) report(c case35, upto int, key, msg string, got string) {
 	r.stats["mismatches"]++
-	cc := case35{Base: c.Base, Steps: append([]step35{}, c.Steps[:upto]...)}
+	cc := case35{Base: c.Base, Info: c.Info, XMP: c.XMP, KwInf: c.KwInf, Init: c.Init, Steps: append([]step35{}, c.Steps[:upto]...)}
 	for i := range cc.Steps {
 		if i < upto-1 {
 			cc.Steps[i].Exp = nil
@@ -411,17 +419,141 @@ func (r *runner35) report(c case35, upto int, key, msg string, got string) {
 	}
 }
 
-func baseDoc(name string) []byte {
-	ps := []rawpdf.PageSpec{{Marker: "m1", Rotate: -1}, {Marker: "m2", Rotate: 90}}
-	switch name {
-	case "bare":
-		return rawpdf.MarkerDoc(ps, rawpdf.MarkerOpts{}).Bytes()
-	case "info":
-		return rawpdf.MarkerDoc(ps, rawpdf.MarkerOpts{Fanout: 1,
-			InfoDict: "/Producer (verif raw emitter) /CreationDate (D:20200102030405Z) /Title (Base title) /Author (A. Uthor)"}).Bytes()
+// pdfText renders a text string object: a literal for ASCII, UTF-16BE hex otherwise.
+func pdfText(s string) string {
+	ascii := true
+	for _, r := range s {
+		if r > 126 || r < 32 {
+			ascii = false
+		}
 	}
-	h.Die("unknown base document %q", name)
-	return nil
+	if ascii {
+		rp := strings.NewReplacer("\\", "\\\\", "(", "\\(", ")", "\\)")
+		return "(" + rp.Replace(s) + ")"
+	}
+	var b strings.Builder
+	b.WriteString("<FEFF")
+	for _, u := range utf16.Encode([]rune(s)) {
+		fmt.Fprintf(&b, "%04X", u)
+	}
+	b.WriteString(">")
+	return b.String()
+}
+
+// pdfName renders a name object with #xx escapes (ISO 32000 7.3.5).
+func pdfName(s string) string {
+	var b strings.Builder
+	b.WriteByte('/')
+	for i := 0; i < len(s); i++ {
+		c := s[i]
+		if c < '!' || c > '~' || strings.IndexByte("()<>[]{}/%#", c) >= 0 {
+			fmt.Fprintf(&b, "#%02X", c)
+		} else {
+			b.WriteByte(c)
+		}
+	}
+	return b.String()
+}
+
+func xmlEsc(s string) string {
+	var b strings.Builder
+	xml.EscapeText(&b, []byte(s))
+	return b.String()
+}
+
+// baseDoc emits the initial document byte by byte from its description in the case: with or without an Info dictionary,
+// with or without catalog XMP metadata repeating the keywords, and carrying the metadata state `init` already.
+func baseDoc(c case35) []byte {
+	var l listing35
+	if err := json.Unmarshal(c.Init, &l); err != nil {
+		h.Die("init listing: %v", err)
+	}
+	l.unesc()
+	d := &rawpdf.Doc{}
+	catalog := d.Reserve()
+	d.Root = catalog
+	font := d.Add("<< /Type /Font /Subtype /Type1 /BaseFont /Helvetica >>")
+	pages := d.Reserve()
+	var kids []string
+	for i, m := range []string{"m1", "m2"} {
+		cs := d.AddStream("", []byte(rawpdf.MarkerContent(m)))
+		rot := ""
+		if i == 1 {
+			rot = " /Rotate 90"
+		}
+		kids = append(kids, fmt.Sprintf("%d 0 R", d.Add(fmt.Sprintf(
+			"<< /Type /Page /Parent %d 0 R /Contents %d 0 R /Resources << /Font << /F1 %d 0 R >> >>%s >>", pages, cs, font, rot))))
+	}
+	d.Set(pages, fmt.Sprintf("<< /Type /Pages /Count %d /Kids [%s] /MediaBox [0 0 595 842] >>", len(kids), strings.Join(kids, " ")))
+	cat := fmt.Sprintf("<< /Type /Catalog /Pages %d 0 R", pages)
+	kws := strings.Join(sorted(l.Kw), "; ")
+	if !c.Info && (len(l.Kw) > 0 || len(l.Props) > 0) {
+		h.Die("base %q: keywords/properties need an Info dictionary", c.Base)
+	}
+	if c.Info {
+		info := "<< /Producer (verif raw emitter) /CreationDate (D:20200102030405Z) /Title (Base title) /Author (A. Uthor)"
+		if len(l.Kw) > 0 && c.KwInf {
+			info += " /Keywords " + pdfText(kws)
+		}
+		for _, p := range l.Props {
+			info += " " + pdfName(p.K) + " " + pdfText(p.V)
+		}
+		d.Info = d.Add(info + " >>")
+	}
+	if c.XMP {
+		x := `<?xpacket begin="" id="W5M0MpCehiHzreSzNTczkc9d"?>` + "\n" +
+			`<x:xmpmeta xmlns:x="adobe:ns:meta/"><rdf:RDF xmlns:rdf="http://www.w3.org/1999/02/22-rdf-syntax-ns#">` +
+			`<rdf:Description rdf:about="" xmlns:pdf="http://ns.adobe.com/pdf/1.3/" xmlns:dc="http://purl.org/dc/elements/1.1/" xmlns:xmp="http://ns.adobe.com/xap/1.0/">` + "\n" +
+			`<pdf:Producer>verif raw emitter</pdf:Producer>` + "\n" +
+			`<pdf:Keywords>` + xmlEsc(kws) + `</pdf:Keywords>` + "\n" +
+			`<xmp:CreateDate>2020-01-02T03:04:05Z</xmp:CreateDate>` + "\n" +
+			`<dc:title><rdf:Alt><rdf:li xml:lang="x-default">Base title</rdf:li></rdf:Alt></dc:title>` + "\n" +
+			`<dc:subject><rdf:Bag>`
+		for _, k := range sorted(l.Kw) {
+			x += `<rdf:li>` + xmlEsc(k) + `</rdf:li>`
+		}
+		x += `</rdf:Bag></dc:subject>` + "\n" + `</rdf:Description></rdf:RDF></x:xmpmeta>` + "\n" + `<?xpacket end="w"?>`
+		cat += fmt.Sprintf(" /Metadata %d 0 R", d.AddStream("/Type /Metadata /Subtype /XML", []byte(x)))
+	}
+	if l.Layout != "" {
+		cat += " /PageLayout /" + l.Layout
+	}
+	if l.Mode != "" {
+		cat += " /PageMode /" + l.Mode
+	}
+	if len(l.VP) > 0 {
+		cat += " /ViewerPreferences <<"
+		for _, p := range l.VP {
+			switch p.K {
+			case "HideToolbar", "FitWindow":
+				cat += fmt.Sprintf(" /%s %s", p.K, p.V)
+			case "Direction", "PrintScaling":
+				cat += fmt.Sprintf(" /%s /%s", p.K, p.V)
+			case "NumCopies":
+				cat += fmt.Sprintf(" /%s %s", p.K, p.V)
+			default:
+				h.Die("unknown viewer preference %q", p.K)
+			}
+		}
+		cat += " >>"
+	}
+	if len(l.Att) > 0 {
+		atts := append([]attx{}, l.Att...)
+		sort.Slice(atts, func(i, j int) bool { return atts[i].Name < atts[j].Name })
+		names := ""
+		for _, a := range atts {
+			data := attBytes(a.Data)
+			ef := d.AddStream(fmt.Sprintf("/Type /EmbeddedFile /Params << /Size %d >>", len(data)), data)
+			fs := fmt.Sprintf("<< /Type /Filespec /F %s /UF %s /EF << /F %d 0 R >>", pdfText(a.Name), pdfText(a.Name), ef)
+			if a.Desc != "" {
+				fs += " /Desc " + pdfText(a.Desc)
+			}
+			names += fmt.Sprintf(" %s %d 0 R", pdfText(a.Name), d.Add(fs+" >>"))
+		}
+		cat += fmt.Sprintf(" /Names << /EmbeddedFiles << /Names [%s ] >> >>", names)
+	}
+	d.Set(catalog, cat+" >>")
+	return d.Bytes()
 }
 
 func (r *runner35) run(c case35) {
@@ -430,7 +562,7 @@ func (r *runner35) run(c case35) {
 	root, ok := r.cache[tk]
 	if !ok {
 		p := filepath.Join(r.dir, c.Base+".pdf")
-		if err := os.WriteFile(p, baseDoc(c.Base), 0644); err != nil {
+		if err := os.WriteFile(p, baseDoc(c), 0644); err != nil {
 			h.Die("%v", err)
 		}
 		root = &entry35{path: p, checked: true}
@@ -441,9 +573,14 @@ func (r *runner35) run(c case35) {
 			r.report(c, 0, "read|unreadable", "base document cannot be listed: "+err.Error(), "")
 		} else {
 			root.v = v
-			if !v.eq(expectedView(listing35{})) {
+			var il listing35
+			if err := json.Unmarshal(c.Init, &il); err != nil {
+				h.Die("init listing: %v", err)
+			}
+			il.unesc()
+			if iv := expectedView(il); !v.eq(iv) {
 				root.bad = true
-				r.report(c, 0, "read|"+diffField(expectedView(listing35{}), v), "base document does not list as empty", v.String())
+				r.report(c, 0, "read|"+diffField(iv, v), "the initial document does not list as its description says: expected "+iv.String(), v.String())
 			}
 		}
 		r.cache[tk] = root
